@@ -385,10 +385,12 @@ theorem delAtt_refines (E : Env) (f : File) (varid : Int) (raw : Name) (inv : FI
       · exact FInv_setAtts inv hg hinv
 
 theorem copyAtt_refines (E : Env) (fin : File) (varidIn : Int) (raw : Name) (fout : File) (varidOut : Int)
-    (same : Bool) (invIn : FInv E fin) (inv : FInv E fout) :
+    (same : Bool) (invIn : FInv E fin) (inv : FInv E fout)
+    (hok : ∀ Ain i ia, fin.getAtts varidIn = some Ain → lookup (names Ain.items) (E.nfc raw) = some i →
+             Ain.items[i]? = some ia → ¬ (fout.cfg.format ≤ 2 ∧ ia.xtype > 6)) :
     R E (copyAtt E fin varidIn raw fout varidOut same) (sCopyAtt E fin.abs varidIn raw fout.abs varidOut same) := by
   unfold copyAtt sCopyAtt
-  simp only [abs_indef, abs_rdonly, abs_nvars, abs_getAtts]
+  simp only [abs_indef, abs_rdonly, abs_nvars, abs_getAtts, abs_format]
   refine R_ite (fun _ => R_err inv _) (fun _ => ?_)
   refine R_ite (fun _ => R_err inv _) (fun _ => ?_)
   refine R_ite (fun _ => R_err inv _) (fun _ => ?_)
@@ -409,6 +411,8 @@ theorem copyAtt_refines (E : Env) (fin : File) (varidIn : Int) (raw : Name) (fou
         | none => exact R_err inv _
         | some ia =>
           simp only
+          have hn := hok Ain i ia hgi hl hia
+          simp only [hn, if_false]
           cases hlo : lookup (names Aout.items) (E.nfc raw) with
           | some idx =>
             simp only
@@ -589,14 +593,14 @@ def RW (E : Env) (x : World × Int × Int) (y : SWorld × Int × Int) : Prop :=
   x.1.abs = y.1 ∧ x.2 = y.2 ∧ WInv E x.1
 
 theorem on_refines {E : Env} {w : World} (winv : WInv E w) (s : Nat) (g : File → File × Int × Int)
-    (sg : SFile → SFile × Int × Int) (h : ∀ f, FInv E f → R E (g f) (sg f.abs)) :
+    (sg : SFile → SFile × Int × Int) (h : ∀ f, w.file s = some f → FInv E f → R E (g f) (sg f.abs)) :
     RW E (w.on s g) (w.abs.on s sg) := by
   unfold World.on SWorld.on
   rw [abs_file]
   cases hf : w.file s with
   | none => exact ⟨rfl, rfl, winv⟩
   | some f =>
-    obtain ⟨h1, h2, h3⟩ := h f (winv.files s f hf)
+    obtain ⟨h1, h2, h3⟩ := h f hf (winv.files s f hf)
     simp only [Option.map_some]
     refine ⟨?_, by rw [h2], ?_⟩
     · rw [abs_set]; simp [h1, World.abs]
@@ -614,8 +618,27 @@ theorem R_wrap {E : Env} {x : File × Int} {y : SFile × Int} (h : R E x y) :
     R E (x.1, x.2, (-1 : Int)) (y.1, y.2, (-1 : Int)) :=
   ⟨h.1, by rw [h.2.1], h.2.2⟩
 
+/-- the one thing the code does not check (defect, see `meta_refines_counterexample` in Props/C07.lean):
+    ncmpi_copy_att copies an attribute of an extended type into a CDF-1/2 file.  `copyOK` = this
+    operation is not such a copy. -/
+def copyOK (E : Env) (w : World) : MOp → Bool
+  | .copyAtt s varid raw s2 _ =>
+    match w.file s, w.file s2 with
+    | some fin, some fout =>
+      match fin.getAtts varid with
+      | some Ain =>
+        match lookup (names Ain.items) (E.nfc raw) with
+        | some i =>
+          match Ain.items[i]? with
+          | some ia => !(decide (fout.cfg.format ≤ 2) && decide (ia.xtype > 6))
+          | none => true
+        | none => true
+      | none => true
+    | _, _ => true
+  | _ => true
+
 /-- one step of any program on any consistent world refines the reference model -/
-theorem wstep_refines (E : Env) (w : World) (op : MOp) (winv : WInv E w) (ok : op.ok) :
+theorem wstep_refines (E : Env) (w : World) (op : MOp) (winv : WInv E w) (ok : op.ok) (cok : copyOK E w op = true) :
     RW E (wstep E w op) (swstep E w.abs op) := by
   cases op with
   | create s c =>
@@ -694,17 +717,17 @@ theorem wstep_refines (E : Env) (w : World) (op : MOp) (winv : WInv E w) (ok : o
             exact inv.disk d' hd'
         · rw [if_neg hc] at hd
           exact winv.disks s' fmt d hd
-  | enddef s => exact on_refines winv s _ _ (fun f inv => R_wrap (enddef_refines E f inv))
-  | redef s => exact on_refines winv s _ _ (fun f inv => R_wrap (redef_refines E f inv))
-  | defDim s raw size => exact on_refines winv s _ _ (fun f inv => defDim_refines E f raw size inv)
-  | renameDim s dimid raw => exact on_refines winv s _ _ (fun f inv => R_wrap (renameDim_refines E f dimid raw inv))
-  | defVar s raw xtype dimids => exact on_refines winv s _ _ (fun f inv => defVar_refines E f raw xtype dimids inv)
-  | renameVar s varid raw => exact on_refines winv s _ _ (fun f inv => R_wrap (renameVar_refines E f varid raw inv))
+  | enddef s => exact on_refines winv s _ _ (fun f _ inv => R_wrap (enddef_refines E f inv))
+  | redef s => exact on_refines winv s _ _ (fun f _ inv => R_wrap (redef_refines E f inv))
+  | defDim s raw size => exact on_refines winv s _ _ (fun f _ inv => defDim_refines E f raw size inv)
+  | renameDim s dimid raw => exact on_refines winv s _ _ (fun f _ inv => R_wrap (renameDim_refines E f dimid raw inv))
+  | defVar s raw xtype dimids => exact on_refines winv s _ _ (fun f _ inv => defVar_refines E f raw xtype dimids inv)
+  | renameVar s varid raw => exact on_refines winv s _ _ (fun f _ inv => R_wrap (renameVar_refines E f varid raw inv))
   | putAtt s varid raw isText xtype vals =>
-    exact on_refines winv s _ _ (fun f inv => R_wrap (putAtt_refines E f varid raw isText xtype vals inv))
+    exact on_refines winv s _ _ (fun f _ inv => R_wrap (putAtt_refines E f varid raw isText xtype vals inv))
   | renameAtt s varid raw rawNew =>
-    exact on_refines winv s _ _ (fun f inv => R_wrap (renameAtt_refines E f varid raw rawNew inv))
-  | delAtt s varid raw => exact on_refines winv s _ _ (fun f inv => R_wrap (delAtt_refines E f varid raw inv))
+    exact on_refines winv s _ _ (fun f _ inv => R_wrap (renameAtt_refines E f varid raw rawNew inv))
+  | delAtt s varid raw => exact on_refines winv s _ _ (fun f _ inv => R_wrap (delAtt_refines E f varid raw inv))
   | copyAtt s varid raw s2 varid2 =>
     simp only [wstep, swstep]
     rw [abs_file]
@@ -712,8 +735,14 @@ theorem wstep_refines (E : Env) (w : World) (op : MOp) (winv : WInv E w) (ok : o
     | none => exact ⟨rfl, rfl, winv⟩
     | some fin =>
       simp only [Option.map_some]
-      exact on_refines winv s2 _ _
-        (fun f inv => R_wrap (copyAtt_refines E fin varid raw f varid2 (s == s2) (winv.files s fin hf) inv))
+      refine on_refines winv s2 _ _
+        (fun f hf2 inv => R_wrap (copyAtt_refines E fin varid raw f varid2 (s == s2) (winv.files s fin hf) inv ?_))
+      intro Ain i ia h1 h2 h3
+      simp only [copyOK, hf, hf2, h1, h2, h3, Bool.not_eq_true', Bool.and_eq_false_iff, decide_eq_false_iff_not] at cok
+      intro hc
+      rcases cok with h | h
+      · exact h hc.1
+      · exact h hc.2
 
 theorem init_winv (E : Env) (n : Nat) : WInv E (World.init n) := by
   refine ⟨?_, ?_⟩
@@ -729,17 +758,78 @@ theorem init_winv (E : Env) (n : Nat) : WInv E (World.init n) := by
 theorem init_abs (n : Nat) : (World.init n).abs = SWorld.init n := by
   simp [World.abs, World.init, SWorld.init]
 
+/-- the program never copies an extended-type attribute into a classic-format file (checked along the
+    model's own run) -/
+def copiesOK (E : Env) : World → List MOp → Bool
+  | _, [] => true
+  | w, op :: rest => copyOK E w op && copiesOK E (wstep E w op).1 rest
+
 /-- whole programs: same results, same abstract final world, invariant kept -/
-theorem wrun_refines (E : Env) (w : World) (ops : List MOp) (winv : WInv E w) (ok : ∀ op ∈ ops, op.ok) :
+theorem wrun_refines (E : Env) (w : World) (ops : List MOp) (winv : WInv E w) (ok : ∀ op ∈ ops, op.ok)
+    (cok : copiesOK E w ops = true) :
     (wrun E w ops).1.abs = (swrun E w.abs ops).1 ∧ (wrun E w ops).2 = (swrun E w.abs ops).2 ∧
     WInv E (wrun E w ops).1 := by
   induction ops generalizing w with
   | nil => exact ⟨rfl, rfl, winv⟩
   | cons op rest ih =>
-    obtain ⟨h1, h2, h3⟩ := wstep_refines E w op winv (ok op (by simp))
-    obtain ⟨i1, i2, i3⟩ := ih (wstep E w op).1 h3 (fun o ho => ok o (by simp [ho]))
+    simp only [copiesOK, Bool.and_eq_true] at cok
+    obtain ⟨h1, h2, h3⟩ := wstep_refines E w op winv (ok op (by simp)) cok.1
+    obtain ⟨i1, i2, i3⟩ := ih (wstep E w op).1 h3 (fun o ho => ok o (by simp [ho])) cok.2
     simp only [wrun, swrun]
     rw [← h1, ← h2]
     exact ⟨i1, by rw [i2], i3⟩
+
+/-! ### a change made in data mode is on disk when the call returns -/
+
+@[simp] theorem setAtts_indef (f : File) (v : Int) (A : NArr Attr) : (f.setAtts v A).indef = f.indef := by
+  unfold File.setAtts; split <;> rfl
+
+/-- ncmpio_write_header was reached: a file that is in data mode has, after `sync`, exactly its
+    current header on disk -/
+theorem sync_disk (f : File) (h : f.indef = false) : (File.sync f).disk = some (File.sync f).hdr.abs := by
+  simp [File.sync, h]
+
+theorem putAtt_disk (E : Env) (f : File) (varid : Int) (raw : Name) (isText : Bool) (xt : Int) (vals : List Int)
+    (h : f.indef = false) :
+    (putAtt E f varid raw isText xt vals).1 = f ∨
+    (putAtt E f varid raw isText xt vals).1.disk = some (putAtt E f varid raw isText xt vals).1.hdr.abs := by
+  unfold putAtt
+  try simp only []
+  repeat' split
+  all_goals first | exact Or.inl rfl | (right; exact sync_disk _ (by simp [h]))
+
+theorem renameAtt_disk (E : Env) (f : File) (varid : Int) (raw rawNew : Name) (h : f.indef = false) :
+    (renameAtt E f varid raw rawNew).1 = f ∨
+    (renameAtt E f varid raw rawNew).1.disk = some (renameAtt E f varid raw rawNew).1.hdr.abs := by
+  unfold renameAtt
+  try simp only []
+  repeat' split
+  all_goals first | exact Or.inl rfl | (right; exact sync_disk _ (by simp [h]))
+
+theorem renameDim_disk (E : Env) (f : File) (dimid : Int) (raw : Name) (h : f.indef = false) :
+    (renameDim E f dimid raw).1 = f ∨
+    (renameDim E f dimid raw).1.disk = some (renameDim E f dimid raw).1.hdr.abs := by
+  unfold renameDim
+  try simp only []
+  repeat' split
+  all_goals first | exact Or.inl rfl | (right; exact sync_disk _ (by simp [h]))
+
+theorem renameVar_disk (E : Env) (f : File) (varid : Int) (raw : Name) (h : f.indef = false) :
+    (renameVar E f varid raw).1 = f ∨
+    (renameVar E f varid raw).1.disk = some (renameVar E f varid raw).1.hdr.abs := by
+  unfold renameVar
+  try simp only []
+  repeat' split
+  all_goals first | exact Or.inl rfl | (right; exact sync_disk _ (by simp [h]))
+
+theorem copyAtt_disk (E : Env) (fin : File) (varidIn : Int) (raw : Name) (fout : File) (varidOut : Int) (same : Bool)
+    (h : fout.indef = false) :
+    (copyAtt E fin varidIn raw fout varidOut same).1 = fout ∨
+    (copyAtt E fin varidIn raw fout varidOut same).1.disk =
+      some (copyAtt E fin varidIn raw fout varidOut same).1.hdr.abs := by
+  unfold copyAtt
+  try simp only []
+  repeat' split
+  all_goals first | exact Or.inl rfl | (right; exact sync_disk _ (by simp [h]))
 
 end PnVerif.Meta
